@@ -124,6 +124,8 @@ package client
 //@ ensures[all-pending] result0 == nil ==> (forall i in 0..len(m.Operation) :: m.Operation[i].Id in dom(c.qs.pendq.Ops))
 //@   && (m.ElectionId != nil ==> c.qs.pendq.Election != nil && c.qs.pendq.Election.ID == m.ElectionId) && (m.Params != nil ==> c.qs.pendq.SessionParams != nil)
 //@ ensures[nothing-lost] forall k in old(dom(c.qs.pendq.Ops)) :: k in dom(c.qs.pendq.Ops) && c.qs.pendq.Ops[k] == old(c.qs.pendq.Ops[k])
+//@ ensures[untouched-when-absent] (m.ElectionId == nil ==> c.qs.pendq.Election == old(c.qs.pendq.Election)) && (m.Params == nil ==> c.qs.pendq.SessionParams == old(c.qs.pendq.SessionParams))
+//@   && (old(c.qs.pendq.SessionParams) != nil ==> c.qs.pendq.SessionParams != nil)
 //@ ensures[wf] qsWF(c)
 //@ loop 1 at "range m.Operation" invariant qsWF(c) && (forall i in 0..loopi :: m.Operation[i].Id in dom(c.qs.pendq.Ops))
 //@ loop 1 invariant forall k in old(dom(c.qs.pendq.Ops)) :: k in dom(c.qs.pendq.Ops) && c.qs.pendq.Ops[k] == old(c.qs.pendq.Ops[k])
@@ -227,6 +229,8 @@ package client
 //@ ensures[registered-or-error] len(c.sendErr) == old(len(c.sendErr)) ==> (forall i in 0..len(m.Operation) :: m.Operation[i].Id in dom(c.qs.pendq.Ops))
 //@ ensures[nothing-lost] forall k in old(dom(c.qs.pendq.Ops)) :: k in dom(c.qs.pendq.Ops) && c.qs.pendq.Ops[k] == old(c.qs.pendq.Ops[k])
 //@ ensures[errors-kept] len(c.sendErr) >= old(len(c.sendErr))
+//@ ensures[params-registered] m.Params != nil && len(c.sendErr) == old(len(c.sendErr)) ==> c.qs.pendq.SessionParams != nil
+//@ ensures[registrations-kept] (old(c.qs.pendq.SessionParams) != nil ==> c.qs.pendq.SessionParams != nil) && (m.ElectionId == nil ==> c.qs.pendq.Election == old(c.qs.pendq.Election))
 //@ ensures[election-registered] m.ElectionId != nil && len(c.sendErr) == old(len(c.sendErr)) ==> c.qs.pendq.Election != nil && c.qs.pendq.Election.ID == m.ElectionId
 //@ ensures[queued-or-sent] (len(c.qs.sendq) == old(len(c.qs.sendq)) + 1 && c.qs.sendq[old(len(c.qs.sendq))] == m && len(sent(c.qs.modifyCh)) == old(len(sent(c.qs.modifyCh))))
 //@   || (len(c.qs.sendq) == old(len(c.qs.sendq)) && len(sent(c.qs.modifyCh)) <= old(len(sent(c.qs.modifyCh))) + 1)
@@ -245,7 +249,12 @@ package client
 //@ ensures[queue-drained] len(c.qs.sendq) == 0
 //@ ensures[each-at-most-once] len(sent(c.qs.modifyCh)) <= old(len(sent(c.qs.modifyCh))) + old(len(c.qs.sendq)) + ite(c.state.SessParams != nil, 1, 0) + ite(c.state.ElectionID != nil, 1, 0)
 //@ ensures[nothing-lost] forall k in old(dom(c.qs.pendq.Ops)) :: k in dom(c.qs.pendq.Ops) && c.qs.pendq.Ops[k] == old(c.qs.pendq.Ops[k])
+//@ ensures[params-announced] c.state.SessParams != nil && len(c.sendErr) == old(len(c.sendErr)) ==> c.qs.pendq.SessionParams != nil
+//@ ensures[election-announced] c.state.ElectionID != nil && len(c.sendErr) == old(len(c.sendErr)) ==> c.qs.pendq.Election != nil && c.qs.pendq.Election.ID == c.state.ElectionID
 //@ ensures[wf] qsWF(c)
+//@ loop 1 invariant[lemma-election-announced] c.state.ElectionID != nil && len(c.sendErr) == old(len(c.sendErr)) ==> c.qs.pendq.Election != nil && c.qs.pendq.Election.ID == c.state.ElectionID
+//@ loop 1 invariant[lemma-errors-kept] len(c.sendErr) >= old(len(c.sendErr))
+//@ loop 1 invariant[lemma-params-announced] c.state.SessParams != nil && len(c.sendErr) == old(len(c.sendErr)) ==> c.qs.pendq.SessionParams != nil
 //@ loop 1 at "range c.qs.sendq" invariant qsWF(c) && held(c.awaiting) == 0 && held(c.qs.sendMu) == 2 && ranged == c.qs.sendq && queuedRegistered(c)
 //@ loop 1 invariant[lemma-sends] len(sent(c.qs.modifyCh)) + len(c.qs.sendq) - loopi <= old(len(sent(c.qs.modifyCh))) + old(len(c.qs.sendq)) + ite(c.state.SessParams != nil, 1, 0) + ite(c.state.ElectionID != nil, 1, 0)
 //@ loop 1 invariant forall k in old(dom(c.qs.pendq.Ops)) :: k in dom(c.qs.pendq.Ops) && c.qs.pendq.Ops[k] == old(c.qs.pendq.Ops[k])
@@ -267,8 +276,9 @@ package client
 //@ ensures[unusable-refused] !getRequestUsable(sreq) ==> result1 != nil && remoteGets == old(remoteGets) && getRecvd == old(getRecvd)
 //@ ensures[one-rpc-as-given] getRequestUsable(sreq) ==> remoteGets == old(remoteGets) + 1 && lastRemoteGetAft == sreq.Aft && (lastRemoteGetAll <==> istype(sreq.NetworkInstance, *spb.GetRequest_All))
 //@ ensures[wire-valid] result1 == nil ==> result0 != nil && (forall j in 0..len(result0.Entry) :: result0.Entry[j] != nil && (tagof(result0.Entry[j].Entry) != 0 ==> payload(result0.Entry[j].Entry) != 0))
+//@ ensures[ok-only-at-end-of-stream] getRequestUsable(sreq) && result1 == nil ==> lastRecvEOF
 //@ ensures[only-entries] result1 == nil ==> fresh(result0)
 //@ loop 1 invariant result != nil && fresh(result) && tagof(stream) != 0 && (forall j in 0..len(result.Entry) :: result.Entry[j] != nil && (tagof(result.Entry[j].Entry) != 0 ==> payload(result.Entry[j].Entry) != 0))
 //@ loop 1 invariant remoteGets == old(remoteGets) + 1 && lastRemoteGetAft == sreq.Aft && (lastRemoteGetAll <==> istype(sreq.NetworkInstance, *spb.GetRequest_All)) && getRequestUsable(sreq)
-//@ assigns remoteGets, lastRemoteGetAft, lastRemoteGetAll, getRecvd
+//@ assigns remoteGets, lastRemoteGetAft, lastRemoteGetAll, getRecvd, lastRecvEOF
 //@ props C15 C07 C12:safety
